@@ -987,8 +987,16 @@ struct Exec : public crab::cfg::statement_visitor<label_t, number_t, varname_t> 
       v.i = it->second.i;
       v.obj = it->second.obj;
       f.st.set(s.lhs(), v);
-    } else
+    } else {
       m.outside("load of unsupported type");
+      return;
+    }
+    if (it->second.tags && !m.stop) {
+      // the loaded value carries the tags of the cell
+      Value lv = *f.st.get(s.lhs());
+      lv.tags = it->second.tags;
+      f.st.set(s.lhs(), lv);
+    }
   }
   void visit(store_to_ref_t &s) override {
     auto d = rgn_of(s.region());
@@ -1013,6 +1021,7 @@ struct Exec : public crab::cfg::statement_visitor<label_t, number_t, varname_t> 
         m.outside("store of unsupported value");
         return;
       }
+      c.tags = x->tags;
     } else if (s.val().is_bool_true())
       c.i = 1;
     else if (s.val().is_bool_false())
@@ -1096,6 +1105,30 @@ struct Exec : public crab::cfg::statement_visitor<label_t, number_t, varname_t> 
     // the two partitioning directives of the value-partitioning domains have no
     // concrete effect; every other intrinsic is outside the reference semantics
     const std::string &n = s.get_intrinsic_name();
+    if (n == "add_tag" && s.get_args().size() == 3 && s.get_args()[0].is_variable() &&
+        s.get_args()[1].is_variable() && s.get_args()[2].is_constant()) {
+      // add_tag(rgn, ref, TAG): the data pointed to by ref within rgn gets TAG
+      auto d = rgn_of(s.get_args()[0].get_variable());
+      Value r;
+      if (!d || !ref_of(s.get_args()[1].get_variable(), r) || !deref_ok(r))
+        return;
+      auto it = d->cells.find(r.i);
+      if (it == d->cells.end()) {
+        m.outside("add_tag on a never-written cell");
+        return;
+      }
+      auto nd = std::make_shared<RgnData>(*d);
+      auto nt = std::make_shared<std::set<int>>();
+      if (it->second.tags)
+        *nt = *it->second.tags;
+      nt->insert((int)to_mpz(s.get_args()[2].get_constant()).get_si());
+      nd->cells[r.i].tags = nt;
+      Value v;
+      v.k = Value::RGN;
+      v.rgn = nd;
+      f.st.set(s.get_args()[0].get_variable(), v);
+      return;
+    }
     if (n != "value_partition_start" && n != "value_partition_end")
       m.outside("intrinsic");
   }
